@@ -17,6 +17,7 @@ permutation of `w.universe`, so "equals the Result of an uninterrupted run" is
 `F.Perm w.universe` + `bodies F = bodies w.universe` (TransactionResult folds per id).
 -/
 import CobaVerif.Lemmas.C02
+import CobaVerif.Generated.C02ScanConsts
 
 namespace Coba.C02
 open Ex
@@ -392,6 +393,145 @@ theorem cut_resume_end_to_end (w : World) (hw : w.OK) (L : List Rec) (hL : Valid
     (∀ ks h, ByteChain Flags.fixed w ks (logFile w L) h → ∃ F, h = logFile w F ∧ ValidLog w F ∧
       (ks ≠ [] → decodeAll w.c h = some F ∧ F.Perm w.universe ∧ ∀ key, bodies F key = bodies w.universe key)) :=
   cut_resume_end_to_end_gen' Flags.fixed rfl rfl w hw (Or.inl rfl) L hL
+
+/-! ### Phase 4: the member scan as written in the source (chunked reads), the shape test -/
+
+/-- [phase 4] `chunk_scan_eq_member_scan`: the loop of `_drop_torn_tail` as it is written — `f.read(c)` chunks, a decompressor
+fed chunk by chunk, `good = f.tell()-len(member.unused_data)`, `f.seek(good)`, break on `zlib.error` — computes, for EVERY
+read size `c ≥ 1`, EVERY byte string and every streaming decompressor satisfying `ZLaws`, exactly the offset of the abstract
+member split `memberScan` (on which `gz_member_scan_spec`, `gz_resume_correct`, `resume_idempotent_gz` are built) -/
+theorem chunk_scan_eq_member_scan (z : ZScan) (hz : ZLaws z) (c : Nat) (hc : 1 ≤ c) (data : Bytes) :
+    chunkScan z c data = memberScan (toMScan z) data :=
+  chunk_scan_eq_member_scan' z hz c hc data
+
+/-- [phase 4] chunk-size independence -/
+theorem chunk_size_independent (z : ZScan) (hz : ZLaws z) (c₁ c₂ : Nat) (h₁ : 1 ≤ c₁) (h₂ : 1 ≤ c₂) (data : Bytes) :
+    chunkScan z c₁ data = chunkScan z c₂ data :=
+  (chunk_scan_eq_member_scan' z hz c₁ h₁ data).trans (chunk_scan_eq_member_scan' z hz c₂ h₂ data).symm
+
+/-- [phase 4] `chunk_scan_spec`: on what a killed run leaves (complete members followed by a strictly torn one or nothing)
+the loop as written stops exactly after the last complete member, for every read size ≥ 1; truncating there leaves exactly
+the complete members -/
+theorem chunk_scan_spec (z : ZScan) (hz : ZLaws z) (all : List Member) (hl : MLaws (toMScan z) all) (c : Nat) (hc : 1 ≤ c)
+    (ms : List Member) (hms : ∀ m ∈ ms, m ∈ all) (q : Bytes) (hq : q = [] ∨ ∃ m ∈ all, q <+: m.bytes ∧ q ≠ m.bytes) :
+    chunkScan z c (flatM ms ++ q) = (flatM ms).length ∧
+      (flatM ms ++ q).take (chunkScan z c (flatM ms ++ q)) = flatM ms :=
+  chunk_scan_spec' z hz all hl c hc ms hms q hq
+
+/-- the hypothesis `1 ≤ c` is necessary: `f.read(0)` returns `b''` at once and everything is truncated -/
+theorem chunk_zero_counterexample (z : ZScan) (data : Bytes) : chunkScan z 0 data = 0 := chunk_zero' z data
+
+/-- [phase 4] the driver's streaming decompressor (table of the real file's members) satisfies `ZLaws` when `memberTableOK`
+holds, and its one-shot form is the `tableScan` the other theorems are run with -/
+theorem table_z_laws (tbl : List Member) (h : memberTableOK tbl = true) :
+    ZLaws (tableZ tbl) ∧ toMScan (tableZ tbl) = tableScan tbl :=
+  ⟨tableZ_laws' tbl h, toMScan_tableZ' tbl⟩
+
+/-- non-vacuity: a two-member table, the file "member a, member b, two bytes of a", read 1, 2, 3 and 4096 bytes at a time -/
+example : memberTableOK [⟨[1], [7, 8, 9]⟩, ⟨[], [5, 6]⟩] = true ∧
+    ∀ c, 1 ≤ c → chunkScan (tableZ [⟨[1], [7, 8, 9]⟩, ⟨[], [5, 6]⟩]) c [7, 8, 9, 5, 6, 7, 8] = 5 := by
+  refine ⟨by decide, fun c hc => ?_⟩
+  rw [chunk_scan_eq_member_scan _ (table_z_laws [⟨[1], [7, 8, 9]⟩, ⟨[], [5, 6]⟩] (by decide)).1 c hc,
+    (table_z_laws [⟨[1], [7, 8, 9]⟩, ⟨[], [5, 6]⟩] (by decide)).2]
+  decide
+
+/-- [phase 4] translator obligation: the read size and the decompressor parameters extracted from the CURRENT source are the
+ones the model and the driver use (any read size ≥ 1 is covered by the theorem; 31 = gzip container, which `ZLaws` is about) -/
+theorem scan_consts_as_modelled :
+    1 ≤ Coba.Generated.C02Scan.readSize ∧ Coba.Generated.C02Scan.wbits = [31, 31] ∧
+    Coba.Generated.C02Scan.loopShape = ["for:iter-read-sentinel-b''", "try:member.decompress(chunk)", "except:zlib.error:break",
+      "if:member.eof", "good=f.tell()-len(member.unused_data)", "f.seek(good)", "member=zlib.decompressobj", "after:f.truncate(good)"] := by
+  decide
+
+/-- [phase 4] `resume_never_mismatch`: the shape test of `run` (`n_learners`/`n_environments` of the restored experiment
+line against the experiment given) never fires on a log the experiment's own runs wrote — for every valid log, every cut:
+the checked run IS the resumed run of `resume_correct` -/
+theorem resume_never_mismatch (w : World) (hw : w.OK) (shapeOf : Rec → Option Nat × Option Nat)
+    (hs : shapeOf w.exp = (some (givenShape w.triples).1, some (givenShape w.triples).2))
+    (L : List Rec) (hL : ValidLog w L) (k : Nat) :
+    ∃ o, resume Flags.fixed w (some (cut w L k)) = some o ∧
+      resumeChecked Flags.fixed w shapeOf (givenShape w.triples) (some (cut w L k)) = some (false, o) :=
+  resume_never_mismatch' w hw shapeOf hs L hL k
+
+/-- [phase 4] no mismatch on ANY set of restored records of the own experiment (sparse logs, logs without experiment line) -/
+theorem no_mismatch_own (w : World) (hw : w.OK) (shapeOf : Rec → Option Nat × Option Nat)
+    (hs : shapeOf w.exp = (some (givenShape w.triples).1, some (givenShape w.triples).2))
+    (K : List Rec) (hK : ∀ r ∈ K, r ∈ w.universe) :
+    shapeMismatch shapeOf (givenShape w.triples) K = false :=
+  no_mismatch_own' w hw shapeOf hs K hK
+
+/-- [phase 4] a genuinely different shape is detected: when the last experiment line restored names both counts and one of
+them differs from the experiment given, the test fires (the run then evaluates and writes nothing: `resumeChecked`) -/
+theorem mismatch_raises (shapeOf : Rec → Option Nat × Option Nat) (given : Nat × Nat) (K : List Rec) (r : Rec)
+    (hr : (K.filter (fun r => decide (r.key = Key.exp))).getLast? = some r) (nl ne : Nat)
+    (hs : shapeOf r = (some nl, some ne)) (hne : nl ≠ given.1 ∨ ne ≠ given.2) :
+    shapeMismatch shapeOf given K = true :=
+  mismatch_raises' shapeOf given K r hr nl ne hs hne
+
+/-- non-vacuity / the converse does not hold: a different experiment with the SAME counts passes the test
+(1 learner, 1 environment: a log of experiment A is accepted by any experiment B of that shape) -/
+example : shapeMismatch (fun _ => (some 1, some 1)) (givenShape [(5, 9, 0)]) [Ex.rVer, Ex.rExp] = false ∧
+    shapeMismatch (fun _ => (some 1, some 1)) (givenShape [(5, 9, 0), (5, 8, 0)]) [Ex.rVer, Ex.rExp] = true := by decide
+
+/-! ### Phase 4: universal newlines -/
+
+/-- [phase 4] `universal_newlines_irrelevant`: when no record text holds a raw `\r` (json.dumps escapes it; the harness checks
+every real record to be printable ASCII), reading ANY cut of the log with universal-newline translation — what DiskSource really
+does — gives exactly what the `\n`-only reading of the other theorems gives -/
+theorem universal_newlines_irrelevant (w : World) (L : List Rec) (h : ∀ r ∈ L, CR ∉ w.c.enc r) (k : Nat) :
+    decodeAllU w.c (cut w L k) = decodeAll w.c (cut w L k) :=
+  universal_newlines_irrelevant' w L h k
+
+/-- the hypothesis is necessary: a record text `[\r]` is one line for the `\n`-only reader and two undecodable lines for the real one -/
+theorem cr_counterexample :
+    let c := tableCodec [(⟨.ver, 0, 0⟩, [91, 13, 93])]
+    decodeAll c (serialize [[91, 13, 93]]) = some [⟨.ver, 0, 0⟩] ∧ decodeAllU c (serialize [[91, 13, 93]]) = none :=
+  cr_counterexample'
+
+/-! ### Phase 4: the order ChunkTasks / ProcessTasks give the tasks -/
+
+/-- [phase 4] `run_order_perm`: whatever environments are chunk()ed and whatever `maxtasksperchunk`, the order in which
+ChunkTasks + ProcessTasks run the tasks is a permutation of what MakeTasks emitted: no task lost, none run twice -/
+theorem run_order_perm (chunkOf : Nat → Option Nat) (m : Nat) (tasks : List Task) : (runOrder chunkOf m tasks).Perm tasks :=
+  runOrder_perm' chunkOf m tasks
+
+/-- [phase 4] `resume_correct_run_order`: `resume_correct` instantiated with the order the real single-process pipeline
+produces (records arrive in ChunkTasks/ProcessTasks order, not in MakeTasks order) -/
+theorem resume_correct_run_order (w : World) (hw : w.OK) (L : List Rec) (hL : ValidLog w L) (k : Nat)
+    (chunkOf : Nat → Option Nat) (m : Nat) :
+    ∃ K, restore Flags.fixed w.c (some (cut w L k)) = some ⟨logFile w K, K⟩ ∧ K <+: L ∧
+        let o := finish w.c ⟨logFile w K, K⟩ (makeTasks true K w.triples) (preamble Flags.fixed w.ver w.exp K)
+          ((runOrder chunkOf m (makeTasks true K w.triples)).filterMap w.out)
+        o.file = logFile w (K ++ o.appended) ∧ o.final = some (K ++ o.appended) ∧ ValidLog w (K ++ o.appended) ∧
+        (K ++ o.appended).Perm w.universe ∧ (∀ t ∈ o.tasks, ∀ r ∈ K, r.key ≠ t.key) :=
+  resume_correct_run_order' w hw L hL k chunkOf m
+
+/-! ### Phase 4: `Result.from_file` on a cut file WITHOUT resuming
+
+Reading of the statement: "a final record that was only partly written never makes the file unusable" is about the protocol
+of the first sentence (running the experiment again with that file): `restore_eq_prefix`, `resume_correct`.  Reading the
+file directly is a different entry point; what it does on each kind of cut is stated here.  Readable: a cut on a record
+boundary (≥ 1 record) and a cut that only misses the final newline.  Raises: the empty file, and every cut strictly inside a
+record.  After ANY `Experiment.run` on the file (`cut_resume_end_to_end`) it is readable again. -/
+
+/-- [phase 4] `from_file_torn`: on a plain file that ends strictly inside a record `Result.from_file` raises (any line that
+does not decode raises in TransactionDecode) — for every valid prefix `A`, every record `r`, every proper non-empty prefix `p` -/
+theorem from_file_torn (w : World) (hw : w.OK) (isGz : GzPred) (scan : MScan) (name : Bytes) (hn : isGz.eval name = false)
+    (A : List Rec) (hA : ∀ r ∈ A, r ∈ w.universe) (r : Rec) (hr : r ∈ w.universe) (p : Bytes) (hp : p <+: w.c.enc r)
+    (hne : p ≠ []) (hpr : p ≠ w.c.enc r) :
+    fromFile w.c isGz scan name (logFile w A ++ p) = none := by
+  simpa [fromFile, hn] using from_file_torn' w hw A hA r hr p hp hne hpr
+
+/-- [phase 4] `from_file_unterminated`: a cut that only misses the newline of the last record is readable, all records included -/
+theorem from_file_unterminated (w : World) (hw : w.OK) (isGz : GzPred) (scan : MScan) (name : Bytes) (hn : isGz.eval name = false)
+    (A : List Rec) (hA : ∀ r ∈ A, r ∈ w.universe) (r : Rec) (hr : r ∈ w.universe)
+    (hver : ∀ x, (A ++ [r]).head? = some x → x.key = Key.ver) :
+    fromFile w.c isGz scan name (logFile w A ++ w.c.enc r) = some (A ++ [r]) := by
+  simpa [fromFile, hn] using from_file_unterminated' w hw A hA r hr hver
+
+/-- the witness: 10 bytes of the example log (cut inside the third record) — reading it directly raises, resuming it works -/
+theorem from_file_torn_counterexample :
+    decodeAll Ex.w.c (Ex.full.take 10) = none ∧ (restore Flags.fixed Ex.w.c (some (Ex.full.take 10))).isSome = true := by decide
 
 /-! ### the hypothesis `NonEmptyI` is necessary for the committed code (finding C02-F6; repair proposed in phase 2) -/
 
